@@ -87,8 +87,9 @@ def monitor(run):
     p = pct99(times)
     if not close(st.p99_latency, None if p is None else p / tps):
         yield f'statistics: p99_latency={st.p99_latency}, recount gives {None if p is None else float(p / tps)}'
-    if fail and sum(st.failure_error_counts.values()) != fail:
-        yield f'statistics: failure_error_counts={st.failure_error_counts}, {fail} failures reported'
+    # every failure of the shipped executor is an out-of-memory kill ("OOM"); an empty dict when nothing failed
+    if dict(st.failure_error_counts) != ({'OOM': fail} if fail else {}):
+        yield f'statistics: failure_error_counts={dict(st.failure_error_counts)}, recount gives {fail} failures, all OOM'
     cats = [('pipelines_all', None), ('pipelines_query', 1), ('pipelines_interactive', 2), ('pipelines_batch', 3)]
     tot_a = tot_c = 0
     for name, cls in cats:
